@@ -32,6 +32,42 @@ Tolerances (calibration on the pinned tree, thorough tier, all 4560 configuratio
   translation      max |(p' - c') - (p - c)| / (1+|c'|)   measured 1.8e-16   tolerance 1e-12
   shell grid       points / weights                       measured 0 / 2.3e-16  tolerance 1e-12
   monomial integrals, relative to 4 pi sum_i |w_i r_i^2 g(r_i)|   measured 2.0e-14  tolerance 1e-10
+
+Second layer (audit round; specification spec/AtomGridX.tla, which EXTENDS AtomGrid and is the root module of the
+first two TLC runs - MC_AtomGridXIdx.cfg / MC_AtomGridXCfg.cfg contain every invariant of the old configurations):
+ 5. TLC checks SeedLaw / ScaleLaw / PermuteLaw / ShellRequestLaw and EMITS 2006 cases in six families
+      order    radial nodes unsorted / descending / duplicate radii / r = 0 inside or last, every request kind, 4 methods
+      scale    radial grid (and pruning radius) times 2^k, k in {-40, -27, 30}: all, some, no radii below 1e-8
+      seed     0, 1, 37, 2^16, 2^31 - 1, 2^31, the largest admissible 2^32 - N - 1, one above it, -1; NumPy-integer / bool seeds
+      form     request as list / int64 array / int32 array; centre as array / list / tuple / integer array / absent;
+               degrees next to sizes and d_sectors next to s_sectors (sizes win); sector radii as array / Python ints;
+               radial grid without a domain
+      spelling upper-case / title-case method names for every request kind (a spelling AtomGrid(rg, [3], method=S)
+               does not accept is no method and is skipped)
+      bounds   degree 0 / largest / largest + 1 and size 0 / 1 / largest / largest + 1 of every method, Lebedev 13, 25, 27
+    with the rational data of the product formula (w_i r_i^2, G_k(r_i) for G_1 = 1/(1+r)^2, G_2 = 1 + r/2) and the
+    list of per-shell requests (index -1 .. N with "served iff 0 <= i < N").  ExpectedX ignores `form` and `scale`:
+    TLC judges (degrees, sizes, indices | rejected) of every case built in the stated presentation.
+ 6. Harness, per built case: the per-shell law as in 3. (tolerances relative to |c| + r_i, so that 2^-40 and 2^30 are
+    judged alike; shells above 3 points by a fitted 3x3 map that must be orthogonal instead of the N x N Gram matrix),
+    attributes (center, rgrid identity, rotate, method, n_shells), equality with the canonical presentation (exact),
+    get_shell_grid with explicit / default r_sq, NumPy index, repeated call, served / refused requests, purity,
+    independence of and no effect on NumPy's global generator, translation, and AtomGrid.integrate(G_k, monomial) and
+    AtomGrid.integrate_angular_coordinates against 4 pi * SphereMonomial * (sum_i) w_i r_i^2 G_k(r_i) r_i^l with all
+    factors from TLC.  The same integrate clause runs on the configurations of 3. (observe_at names AtomGrid.integrate).
+ 7. Presets: every built grid (origin, and centre + rotate=5) is checked against the product law itself (radii and
+    weights of EVERY shell from its own radial node, orthogonal image and get_shell_grid on five shells, rgrid
+    identity); maxdet / ahrens_beylkin variants and a radial grid in descending order for some elements (TLC judges
+    them like the others); _get_rgrid_size on a list; NumPy-integer atomic number.
+
+Calibration of the second layer (pinned tree, thorough tier, 2006 cases + 2583 preset builds):
+  x-radii 7.4e-16, x-weights 2.2e-16, x-shell 2.2e-16, x-translation 9.9e-17, x-identity 1.3e-16   tolerance 1e-12
+  x-orth 3.1e-15, x-rotation 1.7e-15                                                                  tolerance 1e-11
+  preset-radii 7.8e-16, preset-weights 4.5e-16, preset-shell 4.2e-16 (1e-12); preset-orth 5.3e-15 (1e-11)
+  integrate / x-integrate / x-angular-integrals, relative to the absolute sum: 2.7e-14 for shells up to 1202 points,
+    2.8e-13 for the 5810-point Lebedev grid (its own exactness, C02's business).  Tolerance = max(1e-10, 100 N eps)
+    with N the largest shell: error budget of a sum of N products (<= ~N eps of the absolute sum) times 100; the
+    in-process mutant "integrate off by 1e-6" is 10^4 tolerances away.
 """
 from __future__ import annotations
 
@@ -994,12 +1030,14 @@ def run(tier: str) -> int:
     rep.set("tolerances", {**_TOL, **_TOLX})
     rep.set("traces_validated_against_impl", rep.evaluations)
     rep.set("exhaustive", not quick)
-    rep.set("rule", "one case = one emitted configuration built through the public constructor (TLC judges degrees/sizes/indices, "
-                    "harness checks every shell numerically) or one (preset, element, radial grid) build judged by TLC")
+    rep.set("rule", "one case = one emitted configuration / second-layer case built through the public constructor (TLC judges "
+                    "degrees/sizes/indices, harness checks every shell numerically) or one (preset, element, radial grid) build judged by TLC")
     rep.sample(cfgobs[len(cfgobs) // 2])
     rep.sample({"preset": presets[0]["name"], "entry": presets[0]["entries"][0]})
     rep.assume("the unit angular grid U, W of a degree is taken from the public AngularGrid (its exactness is C02, its selection C12)")
     rep.assume("the rotation matrix is opaque: only orthogonality (Gram matrices), reproducibility and dependence on (seed, shell) are checked")
+    rep.assume("admissible rotation seeds are the documented range 0 <= s < 2^32 - N; NumPy integers and method names in another case "
+               "that the constructor accepts for degrees denote the same seed / method for every kind of request")
     return rep.finish()
 
 
